@@ -25,7 +25,10 @@ STUBBED_NAMES = base.STUBBED_NAMES
 ASSUMPTIONS = base.ASSUMPTIONS + ["dependency cone as defined in DESIGN.md 4.1; the execution log lives in a non-accepted module"]
 OUTSIDE = base.OUTSIDE
 FUNCTIONS_ENCODED = base.FUNCTIONS_ENCODED
-BOUNDS = {"quick": {}, "thorough": {}}
+BOUNDS = {
+    "quick": {"templates": ["T1", "T3", "T4", "T5", "T6", "T7", "T8 (copy in another accepted module)", "T1main"], "histories": "(s, s) with restart / entry-style switch / copied module; (s, s', s); edits outside the cone: unrelated variable, unrelated definitions and reordering, non-accepted body and variable, sibling's private dependency; falsy default reached through eval and keep", "leaves": "all 32-bit ints"},
+    "thorough": {"templates": "as quick", "histories": "as quick for every template + leaf types str / list / dict / float / bool / tuple / path on T1"},
+}
 LAST_DETAIL = [""]
 
 setup_query = base.setup_query
